@@ -358,7 +358,11 @@ def oracle_cache_independent(ctx, c, r, clause="cache-independence"):
                       "integral, filling), the set filling pattern or the earlier content of the target grid change: %d cells differ, first (bunch %d, x %d, y %d)"
                       % (cd[0], i // (n * n), (i // n) % n, i % n), case=c.replay(), observed=dict(cells_differing=cd[0], first=i),
                       expected="0 cells", sig=dict(kind="kick", clause=clause, dir=c.dir))
-    ctx.case_done((c.cid, "cache-independent"), any(v != 0 for v in c.data))
+    ctx.case_done((c.cid, "kick-cache-independent"), any(v != 0 for v in c.data))
+
+
+def probes_evaluated(ctx):
+    return sum(1 for k in ctx.nontrivial if isinstance(k, tuple) and len(k) == 2 and k[1] == "kick-cache-independent")
 
 
 # ------------------------------------------------------------------ histories on one KickMap object
@@ -443,6 +447,28 @@ def downgrade_usm(ctx, coq, dis, validated):
                          "with the implementation's table on every kick case of this run, the boundary streams included, and every "
                          "oracle holds: downgraded to tie 2")
         return dict(coq, ok=True)
+    return coq
+
+
+def kickloop_downgrade(ctx, coq, dis, validated, how):
+    """downgrade rule of DESIGN 2.2 for Gen_KickLoop (translate/kickloop2coq.py recognises one narrow loop idiom of KickMap::apply;
+    a harmless rewrite - pointer loops, hoisted row pointers, a merged branch - makes it fail loudly): when it is the only failing
+    translator (besides those other rules of the check have already downgraded), the development builds on the last-good file, every
+    theorem checks, every case of the run agrees (no disagreement, no unlisted violation) and the cases that stand for what the
+    generated nests state were evaluated (`validated`: whole multi-bunch outputs equal to the model's - every cell written -, the
+    probe stream with empty-bucket patterns, stale caches, pre-filled target and clamp flag, resp. the orbit runs wired as main()),
+    the property is shown through tie 2 and the downgrade is recorded"""
+    failed = [g for g, s_ in coq["gen"].items() if s_.startswith("failed")
+              and not str(ctx.extra.get("translators", {}).get(g, "")).startswith("downgraded")]
+    kf = load_known()
+    unlisted = [v for v in ctx.violations if match_known(kf, v) is None]
+    if failed == ["Gen_KickLoop"] and validated and coq["make_ok"] and coq["props"]["ok"] and not coq["forbidden"] and coq["extract_ok"] \
+            and not dis and not unlisted and ctx.evaluations > 0:
+        ctx.extra["translators"]["Gen_KickLoop"] = "downgraded-to-correspondence (" + coq["gen"]["Gen_KickLoop"][:200] + ")"
+        ctx.notes.append("Gen_KickLoop: translator failed, last-good loop nests validated against the implementation (%s): downgraded to tie 2" % how)
+        others = [g for g, s_ in coq["gen"].items() if s_.startswith("failed") and g != "Gen_KickLoop"
+                  and not str(ctx.extra.get("translators", {}).get(g, "")).startswith("downgraded")]
+        return dict(coq, ok=not others)
     return coq
 
 
